@@ -68,14 +68,14 @@ def parse_out(text, header, triple):
     return hdr_same, out, vlib.codes(pieces[-1])
 
 
-def one_trace(tid, hist, fix, eol, triple, eol_in, d):
+def one_trace(tid, hist, fix, eol, triple, eol_in, d, other=None):
     text = c04.concretise(hist, triple, eol_in)
     header = text[:106]
     fin = os.path.join(d, 'in%d.x12' % tid)
     with open(fin, 'w', encoding='ascii', newline='') as f:
         f.write(text)
     opts = (['-e'] if eol else []) + (['-f'] if fix else [])
-    tr = {'id': tid, 'hist': hist, 'fix': fix, 'eol': eol, 'hdr_same': False, 'out': [], 'tail': [], 'second_same': False, 'dest_same': False,
+    tr = {'id': tid, 'hist': hist, 'fix': fix, 'eol': eol, 'hdr_same': False, 'out': [], 'tail': [], 'second_same': False, 'dest_same': False, 'multi_same': True,
           'exc': '', 'triple': list(triple), 'eol_in': eol_in}
     out1, exc = run_norm(opts + [fin])
     if exc:
@@ -98,6 +98,27 @@ def one_trace(tid, hist, fix, eol, triple, eol_in, d):
     # second pass over the in-place result
     out2, exc4 = run_norm(opts + [fc])
     tr['second_same'] = (exc4 == '' and out2 == out1)
+    # several files in one invocation: a longer file first, then this one (stdout and in place)
+    if other is not None:
+        flong = os.path.join(d, 'long%d.x12' % tid)
+        with open(flong, 'w', encoding='ascii', newline='') as f:
+            f.write(c04.concretise(other, triple, eol_in))
+        outl, excl = run_norm(opts + [flong])
+        both, excb = run_norm(opts + [flong, fin])
+        c1 = os.path.join(d, 'm1_%d.x12' % tid)
+        c2 = os.path.join(d, 'm2_%d.x12' % tid)
+        shutil.copy(flong, c1)
+        shutil.copy(fin, c2)
+        _, exci = run_norm(opts + ['-i', c1, c2])
+        t1 = open(c1, encoding='ascii', newline='').read()
+        t2 = open(c2, encoding='ascii', newline='').read()
+        tr['multi_same'] = (excl == '' and excb == '' and exci == '' and both == outl + out1 and t1 == outl and t2 == out1)
+        tr['multi_detail'] = {'stdout_equal': both == outl + out1, 'inplace_first': t1 == outl, 'inplace_second': t2 == out1}
+        for p in (flong, c1, c2):
+            try:
+                os.remove(p)
+            except OSError:
+                pass
     for p in (fin, fo, fc):
         try:
             os.remove(p)
@@ -117,7 +138,11 @@ def _batch(args):
             eol_in = ['', '\n', '\r\n'][(tid // 3) % 3]
             combos = [(False, False), (True, False), (False, True), (True, True)]
             fix, eol = combos[tid % 4]
-            out.append(one_trace(tid * 4, h, fix, eol, triple, eol_in, d))
+            longer = None
+            if tid % 7 == 0:
+                cands = [x for x in hists if len(x) > len(h)]
+                longer = (cands[0] + [{'k': 'B', 'id': '', 'cnt': '', 'n': '', 'p': ''}] * 6) if cands else (h + [{'k': 'B', 'id': '', 'cnt': '', 'n': '', 'p': ''}] * 8)
+            out.append(one_trace(tid * 4, h, fix, eol, triple, eol_in, d, other=longer))
             if tid % 5 == 0:        # all four option combinations on a sample
                 for c, (f2, e2) in enumerate(combos):
                     if (f2, e2) != (fix, eol):
@@ -131,7 +156,7 @@ def _validate_batch(traces):
     d = vlib.scratch('c20tv')
     try:
         p = os.path.join(d, 'traces.json')
-        keys = ('id', 'hist', 'fix', 'eol', 'hdr_same', 'out', 'tail', 'second_same', 'dest_same', 'exc')
+        keys = ('id', 'hist', 'fix', 'eol', 'hdr_same', 'out', 'tail', 'second_same', 'dest_same', 'multi_same', 'exc')
         vlib.write_json(p, [{k: t[k] for k in keys} for t in traces])
         res = run_tlc('T_Norm', 'SPECIFICATION Spec\nINVARIANT Report\n', env={'TRACE_FILE': p}, workers=1, timeout=1500, heap='3g')
         if res.error:
@@ -159,6 +184,8 @@ def validate(chk, traces, label):
                 sig['exc'] = tr['exc']
             if clause == 'destinations_differ':
                 sig.update({k: v for k, v in tr.get('dest_detail', {}).items()})
+            if clause == 'several_files_in_one_run':
+                sig.update({k: v for k, v in tr.get('multi_detail', {}).items()})
             if clause in ('values', 'segment_count'):
                 sig['fix'] = tr['fix']
                 sig['history'] = c04.shape(tr['hist'])
